@@ -56,7 +56,54 @@ def solo(cfg, hashseed):
 @st.composite
 def histories(draw):
     npool = draw(st.integers(1, 3))
-    pool = [draw(gen.configs(PROFILE)) for _ in range(npool)]
+    pool = [draw(gen.configs(PROFILE))]
+    for _ in range(npool - 1):
+        if draw(st.booleans()):
+            pool.append(draw(gen.configs(PROFILE)))
+        else:
+            # a NEAR TWIN of the first configuration: identical except for one or two parameters (a cache keyed on
+            # only part of its inputs, or state remembered per crop / soil name, shows up between such neighbours)
+            import copy
+
+            t = copy.deepcopy(pool[0])
+            for _k in range(draw(st.integers(1, 2))):
+                what = draw(st.sampled_from(["HIini", "HI0", "CCx", "WP", "Zmax", "Tbase", "SxTopQ", "fshape_b", "GermThr", "PlantPop",
+                                             "cn", "rew", "AppEff", "noise", "et0", "iwc"]))
+                ov = t["crop"].setdefault("overrides", {})
+                if what == "HIini":
+                    ov["HIini"] = draw(st.sampled_from([0.005, 0.02, 0.03]))
+                elif what == "HI0":
+                    ov["HI0"] = round(float(gen.crop_params[t["crop"]["name"]]["HI0"]) * draw(st.sampled_from([0.8, 0.9, 1.05])), 4)
+                elif what == "CCx":
+                    ov["CCx"] = draw(st.sampled_from([0.6, 0.8, 0.9, 0.97]))
+                elif what == "WP":
+                    ov["WP"] = float(gen.crop_params[t["crop"]["name"]]["WP"]) + draw(st.sampled_from([-2.0, 1.5, 3.0]))
+                elif what == "Zmax":
+                    ov["Zmax"] = draw(st.sampled_from([0.8, 1.2, 1.6, 2.2]))
+                elif what == "Tbase":
+                    ov["Tbase"] = float(gen.crop_params[t["crop"]["name"]]["Tbase"]) + draw(st.sampled_from([-2.0, 1.0]))
+                elif what == "SxTopQ":
+                    ov["SxTopQ"] = draw(st.sampled_from([0.02, 0.035, 0.06]))
+                elif what == "fshape_b":
+                    ov["fshape_b"] = draw(st.sampled_from([10.0, 16.0]))
+                elif what == "GermThr":
+                    ov["GermThr"] = draw(st.sampled_from([0.1, 0.4]))
+                elif what == "PlantPop":
+                    ov["PlantPop"] = int(float(gen.crop_params[t["crop"]["name"]]["PlantPop"]) * draw(st.sampled_from([0.5, 1.5])))
+                elif what == "cn" and t["soil"]["type"] == "custom":
+                    t["soil"].setdefault("args", {})["cn"] = float(draw(st.integers(40, 90)))
+                elif what == "rew":
+                    t["soil"].setdefault("args", {}).update(adj_rew=1, rew=float(draw(st.integers(3, 14))))
+                elif what == "AppEff":
+                    t.setdefault("irr", {"method": 0})
+                    t["irr"] = dict(t["irr"] or {"method": 0}, AppEff=float(draw(st.integers(40, 95))))
+                elif what == "noise":
+                    t["weather"]["noise"] = int(t["weather"].get("noise", 0)) + draw(st.integers(1, 50))
+                elif what == "et0":
+                    t["weather"]["et0"] = float(t["weather"].get("et0", 4.0)) + draw(st.sampled_from([-0.5, 0.7]))
+                elif what == "iwc" and t.get("iwc") and t["iwc"]["wc_type"] == "Pct":
+                    t["iwc"]["value"] = [min(100.0, v + 7.0) for v in t["iwc"]["value"]]
+            pool.append(t)
     ninst = draw(st.integers(2, 4))
     inst = [draw(st.integers(0, npool - 1)) for _ in range(ninst)]
     if npool > 1 and len(set(inst)) == 1:
